@@ -204,26 +204,40 @@ int main(int argc, char** argv) {
                 sample.push_back(q);
             }
             auto answers = [&]() { std::vector<int> v; for (const Position& q : sample) { int sc = 0; bool f = t2.probeDTM(q, 0, sc); v.push_back(f ? sc : 99999); } return v; };
-            U64 before = checksum();
-            std::vector<int> ansBefore = answers();
-            for (int i = 0; i < 6000000; i++) {
-                Move mv(Square(rnd.nextInt(64)), Square(rnd.nextInt(64)), 0);
-                mv.setScore(rnd.nextInt(1000));
-                U64 key = rnd.nextU64();
-                t2.insert(key, mv, 1 + rnd.nextInt(3), 0, rnd.nextInt(50), 0);
-                if ((i & 7) == 0) { TranspositionTable::TTEntry e; t2.probe(key, e); }      // probes refresh the generation (a store)
-                if ((i & 0xfffff) == 0) t2.nextGeneration();
+            std::vector<int> ansFirst = answers();
+            // phase 0: freshly built table; phase 1: the same after TranspositionTable::clear() ("Clear Hash" with a resident
+            // tablebase) and the next search's updateTB() for the same ending - a history, not a size computation
+            for (int phase = 0; phase < 2; phase++) {
+                long wrongAfterClear = 0;
+                if (phase == 1) {
+                    t2.clear();
+                    // between the clear and the next updateTB the table may answer nothing or the truth, never anything else
+                    std::vector<int> mid = answers();
+                    for (size_t i = 0; i < sample.size(); i++) if (mid[i] != 99999 && mid[i] != ansFirst[i]) wrongAfterClear++;
+                    ok = t2.updateTB(p, lim);
+                    st = t2.verifState();
+                }
+                U64 before = checksum();
+                std::vector<int> ansBefore = answers();
+                for (int i = 0; i < (phase == 0 ? 6000000 : 3000000); i++) {
+                    Move mv(Square(rnd.nextInt(64)), Square(rnd.nextInt(64)), 0);
+                    mv.setScore(rnd.nextInt(1000));
+                    U64 key = rnd.nextU64();
+                    t2.insert(key, mv, 1 + rnd.nextInt(3), 0, rnd.nextInt(50), 0);
+                    if ((i & 7) == 0) { TranspositionTable::TTEntry e; t2.probe(key, e); }      // probes refresh the generation (a store)
+                    if ((i & 0xfffff) == 0) t2.nextGeneration();
+                }
+                U64 after = checksum();
+                std::vector<int> ansAfter = answers();
+                long changed = wrongAfterClear, found = 0;
+                for (size_t i = 0; i < sample.size(); i++) { if (ansBefore[i] != ansAfter[i] || ansBefore[i] != ansFirst[i]) changed++; if (ansBefore[i] != 99999) found++; }
+                if (changed) before = after + 1;        // reported through the same flag
+                os << "{\"e\":\"TbAnswers\",\"phase\":" << phase << ",\"sampled\":" << sample.size() << ",\"answeredBefore\":" << found << ",\"changed\":" << changed << "}\n";
+                n++;
+                os << "{\"e\":\"TbRegion\",\"phase\":" << phase << ",\"built\":" << (ok ? "true" : "false") << ",\"same\":" << (before == after ? "true" : "false") << ",\"usedSize\":" << st.usedSize
+                   << ",\"tableSize\":" << st.tableSize << ",\"tbEntries\":" << (tbBytes / 16) << "}\n";
+                n++;
             }
-            U64 after = checksum();
-            std::vector<int> ansAfter = answers();
-            long changed = 0, found = 0;
-            for (size_t i = 0; i < sample.size(); i++) { if (ansBefore[i] != ansAfter[i]) changed++; if (ansBefore[i] != 99999) found++; }
-            if (changed) before = after + 1;        // reported through the same flag
-            os << "{\"e\":\"TbAnswers\",\"sampled\":" << sample.size() << ",\"answeredBefore\":" << found << ",\"changed\":" << changed << "}\n";
-            n++;
-            os << "{\"e\":\"TbRegion\",\"built\":" << (ok ? "true" : "false") << ",\"same\":" << (before == after ? "true" : "false") << ",\"usedSize\":" << st.usedSize
-               << ",\"tableSize\":" << st.tableSize << ",\"tbEntries\":" << (tbBytes / 16) << "}\n";
-            n++;
         }
         printf("{\"misc_records\":%ld}\n", n);
         return 0;
